@@ -330,9 +330,10 @@ def run(ctx):
                      "primitives; the harness checks that contract bitwise on every generated double")
     ctx.notes.append("grammar_semantics is proved in full (acceptance iff no two factors name different base units of one kind, "
                      "dimension, SI-scale product via the C06 SI spec, whole-result invariance under permutation and a/b <-> a.b-1)")
-    ctx.notes.append("rejection theorems for separators / exponent placement / foreign characters / two units are stated on the "
-                     "preprocessed text (after the u->µ chain, which only rewrites the letter u, and strip); embedded-blank and "
-                     "blank-inside-quantity-units are stated on the raw text")
+    ctx.notes.append("rejection theorems are stated on the raw text (after Python's strip()) for embedded blanks, doubled / "
+                     "dangling separators, exponent-first / fractional exponents, text after an exponent, foreign characters "
+                     "('+'), blanks inside a quantity's units; unknown-symbol and two-units are stated on the factor blocks "
+                     "of the text after the u->µ chain (which is what defines the symbols)")
 
     # ============================================================ 1. the grammar: denotation of valid text
     cases = []   # (factors, uspell)
